@@ -1,4 +1,5 @@
 import IofloModel.Lemmas.HttpSafe
+import IofloModel.Lemmas.HttpPorter
 /-!
 # C32 — malformed HTTP input only affects its own connection
 
@@ -223,6 +224,34 @@ theorem C32_server_never_raises (max : Nat) (ops : List SOp) :
         unfold Valet.recv; split <;> exact hr
       | serviceAll => exact serviceAll_ok ⟨hr, hs, hn⟩
   exact (h ops {} ⟨rfl, C32_empty_safe.1, C32_empty_safe.2⟩).1
+
+/-- **The non-WSGI server (`Porter.serviceStewards`, as repaired by fixes/D32b) likewise**: the loop
+over the stewards does not raise, and what becomes of each connection — waiting, answered and kept,
+answered and closed, failed and closed — is a function of that connection's own state only. -/
+theorem C32_porter_isolated (v : Valet) (hr : v.raised = false) (hs : AllSafe v.conns)
+    (hn : (keysOf v.conns).Nodup) :
+    v.serviceStewards.raised = false ∧ AllSafe v.serviceStewards.conns ∧
+    ∀ ca, lookup ca v.serviceStewards.conns = (lookup ca v.conns).bind (fun c => (stewardStepConn c).1) := by
+  obtain ⟨h1, h2, _, h4⟩ := foldl_stepWith_spec stewardStepConn_safe (keysOf v.conns) v hn hr hs hn
+  refine ⟨h1, h2, ?_⟩
+  intro ca
+  have := h4 ca
+  unfold Valet.serviceStewards
+  unfold keysOf at this
+  rw [this]
+  by_cases hm : ca ∈ List.map (fun x => x.1) v.conns
+  · simp [hm]
+  · have : lookup ca v.conns = none := lookup_none_of_not_mem hm
+    simp [hm, this]
+
+/-- non-vacuity: connection 1 sends an unknown method (the request fails before a version is
+known), connection 2 a complete HTTP/1.1 request: 1 is closed, 2 answered and kept -/
+example :
+    let bad : Bytes := [70, 79, 79, 32, 47, 32, 72, 84, 84, 80, 47, 49, 46, 49, 13, 10, 13, 10]
+    let good : Bytes := [71, 69, 84, 32, 47, 32, 72, 84, 84, 80, 47, 49, 46, 49, 13, 10, 13, 10]
+    let t := ((((({} : Valet).connect 1 65536 true).connect 2 65536 true).recv 1 bad).recv 2 good).serviceStewards
+    t.raised = false ∧ lookup 1 t.conns = none ∧ (lookup 2 t.conns).map (·.served) = some 1 := by
+  decide
 
 /-! ## the client -/
 
